@@ -130,3 +130,39 @@ pub enum TrailingTilde {
     #[regex("~$")]
     Tilde,
 }
+
+// Look-ahead whose failing bytes are kept alive by another pattern: the state before the assertion has a successor for
+// every byte value, but only some successors accept (early-accept detection must see the non-accepting ones).
+#[derive(Logos, Debug, PartialEq)]
+pub enum CoveredLookahead {
+    #[regex(r"let(?-u:\b)")]
+    Let,
+    #[regex(r"let[0-9A-Za-z_]+!")]
+    Macro,
+}
+
+#[derive(Logos, Debug, PartialEq)]
+pub enum CoveredWord {
+    #[regex(r"[a-z]+(?-u:\b)")]
+    Word,
+    #[regex(r"[a-zA-Z0-9_]+:")]
+    Label,
+}
+
+// A look-ahead match that another, longer pattern overtakes: the state after the longer match carries both a late
+// accept (the shorter, look-ahead pattern) and an early accept (the longer one).
+#[derive(Logos, Debug, PartialEq)]
+pub enum Overtaken {
+    #[regex(r"a(?-u:\b)")]
+    A,
+    #[token("a-")]
+    ADash,
+    #[token("-")]
+    Dash,
+    #[regex(r"[0-9]+(?-u:\b)")]
+    Num,
+    #[regex(r"[0-9]+\.")]
+    NumDot,
+    #[token(".")]
+    Dot,
+}
